@@ -279,6 +279,10 @@ func verifyServerExtensions(copts *compressionOptions, h http.Header) (*compress
 	_copts := *copts
 	copts = &_copts
 
+	if hasDuplicateParams(ext.params) {
+		return nil, fmt.Errorf("duplicate permessage-deflate parameter in %q", ext.params)
+	}
+
 	for _, p := range ext.params {
 		switch p {
 		case "client_no_context_takeover":
@@ -288,7 +292,7 @@ func verifyServerExtensions(copts *compressionOptions, h http.Header) (*compress
 			copts.serverNoContextTakeover = true
 			continue
 		}
-		if strings.HasPrefix(p, "server_max_window_bits=") {
+		if strings.HasPrefix(p, "server_max_window_bits=") && validWindowBits(strings.TrimPrefix(p, "server_max_window_bits=")) {
 			// We can't adjust the deflate window, but decoding with a larger window is acceptable.
 			continue
 		}
